@@ -142,6 +142,18 @@ def run(ck):
             for i in range(60):
                 f.write("struct S%d { int a%d; struct { int x; union { int u; float v; }; } anon%d; enum { E%d_A, E%d_B } e%d; };\n" % (i, i, i, i, i, i))
         jobs.append(("jbig", big, ["--formatter", "none"]))
+        # many functions of several calling conventions, interleaved with types and variables, under the regrouping passes
+        # (the order of blocks / items is where a container's iteration order would reach the text)
+        for tag, conv, cl in (("host", ["", "__attribute__((ms_abi)) ", "__attribute__((vectorcall)) ", "__attribute__((sysv_abi)) "], []),
+                              ("i686", ["", "__attribute__((stdcall)) ", "__attribute__((fastcall)) ", "__attribute__((thiscall)) ", "__attribute__((vectorcall)) "], ["--target=i686-unknown-linux-gnu"])):
+            p = os.path.join(tmp, "abimix_%s.h" % tag)
+            with open(p, "w") as f:
+                for i in range(60):
+                    f.write("%sint fn%d(int a);\n" % (conv[(i * 7 + i // 3) % len(conv)], i))
+                    if i % 5 == 0:
+                        f.write("struct T%d { int x; };\nextern int v%d;\n" % (i, i))
+            for k, extra in enumerate((["--merge-extern-blocks"], ["--merge-extern-blocks", "--sort-semantically"], ["--sort-semantically"])):
+                jobs.append(("jabi%s%d" % (tag, k), p, ["--formatter", "none"] + extra + (["--"] + cl if cl else [])))
         byid = {j[0]: j for j in jobs}
         # (a) reference: one fresh process per job; then K more fresh processes under a varied environment
         def fresh(args):
